@@ -55,6 +55,17 @@ def tags_of(files, op):
         free = {n.id for n in ast.walk(st) if isinstance(n, ast.Name) and isinstance(n.ctx, ast.Load)} & (src_top - {target})
         if free and rest_uses_target:
             tags.add("source-and-destination-import-each-other")
+    # the moved code brings the source's imports along - a future statement among them lands after other imports
+    if any(isinstance(st, ast.ImportFrom) and st.module == "__future__" for st in tree.body) and dest.body:
+        tags.add("source-has-a-future-statement")
+    # a client imports the moved name itself under an alias
+    src_mod = op["path"][:-3].replace("/", ".")
+    for p, t in files.items():
+        if p in (op["path"], op["dest"]) or not p.endswith(".py"):
+            continue
+        for st in ast.walk(ast.parse(t)):
+            if isinstance(st, ast.ImportFrom) and (st.module or "").split(".")[-1] == src_mod.split(".")[-1] and any(a.name == target and a.asname and a.asname != target for a in st.names):
+                tags.add("client-imports-the-moved-name-under-an-alias")
     # aliases in client modules spelled like other names
     for p, t in files.items():
         if p in (op["path"], op["dest"]) or not p.endswith(".py"):
